@@ -1016,8 +1016,13 @@ impl<'a, H: HashAlgorithm> Exec<'a, H> {
             rep!(self).reads_checked += extra.len() as u64;
         }
         if self.scen.checks.proofs {
-            let sample: Vec<Key> = extra.iter().take(16).cloned().collect();
-            self.check_proofs(&sess, &state, &trie, &sample, "overlay session").map_err(|Viol(mut v)| { v.property = "C11".into(); Viol(v) })?;
+            // the probes (keys the scenario cares about) plus an even spread over everything else
+            let mut sample: Vec<Key> = self.scen.probes.iter().take(10).map(|k| k.0).collect();
+            let stride = (extra.len() / 12).max(1);
+            sample.extend(extra.iter().step_by(stride).take(14).cloned());
+            sample.sort(); sample.dedup();
+            let tag = if self.prop == "C05" { "C05" } else { "C11" };
+            self.check_proofs(&sess, &state, &trie, &sample, "overlay session").map_err(|Viol(mut v)| { v.property = tag.into(); Viol(v) })?;
         }
         Ok(())
     }
